@@ -47,7 +47,16 @@ CLAIMED = {
             "stage_model) with no robustness hypothesis: stream order gives the identical table cell by cell, translation adds d to the T column "
             "and leaves every other column identical, scaling by k>=0 multiplies every CP/dH/H cell and the three targets by k. Total-site records, utility duties and pinch temperatures are decided by "
             "running the implementation on every problem together with its seven transformed twins and relating EVERY record pair in coqc.",
-            "As C01; zone renaming/reordering and the non-DI records rest on the twin comparison only."),
+            "As C01. Zone renaming (injective onto separator-free, stripped, non-empty names; site name free) and stream order are proved on the "
+            "zone-tree and cascade models: corresponding zones hold the same streams and have identical tables and targets, no Robust "
+            "hypothesis; the prepared tree is literally order-independent iff no two labelled streams share (zone, name) (refuted otherwise: "
+            "finding D57, witness replayed on the code); zone order of the total-process sums and utility order of the site cascade are "
+            "proved on the Site model. Twin comparison remains the only evidence for user trees, the other non-DI records and generated "
+            "names under renaming (refuted: numbers may change). Graph series are not compared between "
+            "twins (on the unchanged code the number of emitted points already varies with float noise in the collinearity test; only the "
+            "curve as a function is invariant): their invariance is carried by C13 (graphs reproduce the tables) plus the table-level "
+            "theorems here. Translations that are not a multiple of 1e-6 K get the grid-resolution allowance 2e-6 K x total CP; failing "
+            "pairs on an exact tie whose shifted temperatures are inexact in binary are skipped as fragile (counted)."),
     "C03": ("DESIGN.md 8/C03",
             "Theorems (closed) on the Q model of _assign_utility/_maximise_utility_duty, any profile, any ladder, instantiated at the generated "
             "tol: duties >= 0; a positive duty implies a reachable interval with unmet demand; on a pocket-free segment the duties NEVER exceed "
@@ -68,9 +77,11 @@ CLAIMED = {
             "profile of the duties at every row and 0 <= H_ut(T_i) <= demand(T_i) holds at EVERY row on pocket-free segments with rows more "
             "than tol apart. Row-by-row 0 <= H_ut <= H_np of the cascade and the closed-form duties are additionally evaluated in coqc on "
             "every DI target's own table (stage and end-to-end).",
-            "Open finding D39 (slope bound of gliding utilities: H_ut > H_np, refuted-theorem witness). Not proved: that H_np restricted to "
-            "a side equals the monotone demand column the row theorem assumes (checked per case); non-gridded ladders (a glide inside the "
-            "process range) stay outside the row theorem."),
+            "Open finding D39 (slope bound of gliding utilities: H_ut > H_np, refuted-theorem witness). The row theorem is composed with the "
+            "pocket-free-GCC model (C07): for every Robust GCC with a pinch the demand columns (pinch_idx, sep_hot/sep_cold, flip, entry "
+            "tests) are DERIVED from the output of gcc_np, so 0 <= H_ut[i] <= H_net_np[i] holds at every row of the output table with the "
+            "GCC as the only data. Outside: non-Robust GCCs / no pinch row (C07's limits), that the grid contains the utilities' shifted "
+            "end points (a ladder hypothesis: 'gridded'), non-gridded ladders and glides inside the process range (D39)."),
     "C07": ("DESIGN.md 8/C07",
             "Theorems (closed): the pocket sweep terminates on every table (distance to the pinch shrinks in every iteration, across "
             "insertions), its interpolation is never degenerate; on Robust curves with a pinch the code-shaped index model equals a functional "
